@@ -171,6 +171,8 @@ HISTORIES = [
     # the first query after an override is made with the very Cell object that was handed to set_cells
     ('query-with-the-override-object', [('set', [(0, 0, 0, 5), (0, 1, 0, 20)]), ('same', 0), ('cell', (0, 1, 0)), ('same', 1), ('cell', (0, 0, 0))]),
     ('query-with-the-override-object-after-another', [('set', [(0, 0, 0, 5)]), ('cell', (0, 1, 1)), ('same', 0), ('sheet', 0)]),
+    ('empty-batch-after-a-batch', [('set', [(0, 0, 0, 5)]), ('set', []), ('cell', (0, 0, 0)), ('sheet', 0)]),
+    ('empty-batch-first', [('set', []), ('cell', (0, 0, 0)), ('set', [(0, 1, 0, 6)]), ('set', []), ('cells', [(0, 1, 0)])]),
     ('equal-under-==-is-still-a-write', [('set', [(0, 0, 0, 1), (0, 1, 0, 0)]), ('cell', (0, 0, 0)), ('set', [(0, 0, 0, True), (0, 1, 0, False)]),
                                          ('cells', [(0, 0, 0), (0, 1, 0)]), ('set', [(0, 0, 0, 1.0)]), ('cell', (0, 0, 0))]),
     ('same-batch-twice', [('set', [(0, 0, 0, 4)]), ('cell', (0, 0, 0)), ('set', [(0, 0, 0, 4)]), ('cell', (0, 0, 0)), ('sheet', 0)]),
